@@ -723,6 +723,12 @@ func (c *HostClient) doNonNilReqResp(req *protocol.Request, resp *protocol.Respo
 		return retry, err
 	}
 	shouldCloseConn = resetConnection || req.ConnectionClose() || resp.ConnectionClose()
+	// The caller's SkipBody (possibly left on a reused Response by an earlier HEAD exchange)
+	// made us leave the body of this response unread: such a connection must not be pooled.
+	if customSkipBody && !req.Header.IsHead() && !req.Header.IsConnect() &&
+		!resp.Header.MustSkipContentLength() && resp.Header.ContentLength() != 0 {
+		shouldCloseConn = true
+	}
 
 	if resp.Header.StatusCode() == consts.StatusSwitchingProtocols &&
 		bytes.EqualFold(resp.Header.Peek(consts.HeaderConnection), bytestr.StrUpgrade) {
